@@ -145,6 +145,16 @@ class ImageSet(BaseObject):
         if fileName in self._data:
             n = self[fileName] # force it to load so that the stamping is correct
             if self._data[fileName]["digest"] == digest:
+                if isNewImage:
+                    # the same image that was deleted is stored again under
+                    # its name: the entry taken back from the scheduled
+                    # deletions is kept as it is, but the file name was not
+                    # in the set until now. announce the addition.
+                    restored = self._data.pop(fileName)
+                    self.postNotification("ImageSet.ImageWillBeAdded", data=dict(name=fileName))
+                    self._data[fileName] = restored
+                    self.postNotification("ImageSet.ImageAdded", data=dict(name=fileName))
+                    self.dirty = True
                 return
             onDisk = self._data[fileName]["onDisk"]
             onDiskModTime = self._data[fileName]["onDiskModTime"]
